@@ -306,6 +306,30 @@ func runSession(sv *server, cf base.ClientFactory, s *session) {
 		}
 	}()
 	// closer on a request count
+	if closeKind == "at-request-strict" {
+		// waits for request k whatever the writer does (bounded: 45 s, for the 30 s retry delay)
+		wg.Add(1)
+		go func() {
+			defer wg.Done()
+			deadline := time.After(45 * time.Second)
+			for {
+				select {
+				case k := <-s.reqSeen:
+					if k >= closeArg {
+						time.Sleep(2 * time.Millisecond) // let the answer travel
+						closeNow()
+						return
+					}
+				case <-closed:
+					return
+				case <-deadline:
+					s.viol("retry-did-not-happen", fmt.Sprintf("request no. %d did not arrive within 45 s (bounded wait)", closeArg))
+					closeNow()
+					return
+				}
+			}
+		}()
+	}
 	if closeKind == "at-request" {
 		wg.Add(1)
 		go func() {
@@ -711,6 +735,68 @@ func closeEverywhere() []script {
 	return out
 }
 
+// raceRun re-runs a part of the sessions in a child process built with the race detector.
+func raceRun(r *vlib.Run, scripts []script) {
+	dir := os.Getenv("VERIF_DIR")
+	if dir == "" {
+		r.Notes["race_build"] = "skipped: VERIF_DIR not set"
+		return
+	}
+	tmp, err := os.MkdirTemp("", "c16race")
+	if err != nil {
+		return
+	}
+	defer os.RemoveAll(tmp)
+	bin := filepath.Join(tmp, "c16race")
+	cmd := exec.Command("go", "build", "-race", "-tags", "verif", "-o", bin, "./c16")
+	cmd.Dir = filepath.Join(dir, "harness")
+	cmd.Env = append(os.Environ(), "GOFLAGS=-mod=mod", "GOPROXY=off", "GOSUMDB=off", "GOTOOLCHAIN=local", "CGO_ENABLED=1")
+	if out, err := cmd.CombinedOutput(); err != nil {
+		r.Notes["race_build"] = "unavailable: " + strings.SplitN(string(out), "\n", 2)[0]
+		return
+	}
+	var list []script
+	for _, sc := range scripts {
+		if sc.LingerMs == 0 && !strings.HasPrefix(sc.Close, "at-request-strict") && len(list) < 80 {
+			list = append(list, sc)
+		}
+	}
+	b, _ := json.Marshal(list)
+	c := exec.Command(bin)
+	c.Env = append(os.Environ(), "C16_CANARY="+string(b))
+	var out, errb bytes.Buffer
+	c.Stdout, c.Stderr = &out, &errb
+	done := make(chan error, 1)
+	c.Start()
+	go func() { done <- c.Wait() }()
+	select {
+	case <-done:
+	case <-time.After(300 * time.Second):
+		c.Process.Kill()
+	}
+	msg := errb.String()
+	if i := strings.Index(msg, "WARNING: DATA RACE"); i >= 0 {
+		msg = msg[i:]
+		if len(msg) > 1500 {
+			msg = msg[:1500]
+		}
+		last := 0
+		for _, l := range strings.Split(out.String(), "\n") {
+			if f := strings.Fields(l); len(f) == 2 && f[0] == "start" {
+				last, _ = strconv.Atoi(f[1])
+			}
+		}
+		r.Violate("data-race", "impl-oracle", "the race detector reports a data race in the meek_lite client: "+msg, list[last])
+		return
+	}
+	r.Notes["race_build"] = fmt.Sprintf("%d sessions re-run in a -race build of this harness: no race report (%s)", len(list), strings.TrimSpace(lastLine(out.String())))
+}
+
+func lastLine(s string) string {
+	l := strings.Split(strings.TrimSpace(s), "\n")
+	return l[len(l)-1]
+}
+
 // ---------------------------------------------------------------- main
 
 // mixSeed decorrelates consecutive seeds (vlib.NewRng(n) and NewRng(n+1) yield the same
@@ -862,6 +948,12 @@ func main() {
 		}
 	}
 
+	if r.Thorough() && r.ReplayIn == "" {
+		// the retry path of roundTrip: the same body again after retryDelay (30 s of wall time,
+		// overlapping the other sessions)
+		scripts = append([]script{{Name: "non200-retry-same-body", Writes: []int{100, 50}, ReadSizes: []int{4096}, Reads: -1,
+			Resp: []int{10}, Down: 30, FailAt: 1, FailKind: "non200", Close: "at-request-strict:2"}}, scripts...)
+	}
 	r.Case("canary", false)
 	if !canary(append([]script{}, closeEverywhere()[2], closeEverywhere()[9], closeEverywhere()[14], scripts[0])) {
 		r.Finish()
@@ -914,6 +1006,9 @@ func main() {
 	}
 	for i := 0; i < par; i++ {
 		(<-drivers).Close()
+	}
+	if r.Thorough() && r.ReplayIn == "" {
+		raceRun(r, scripts)
 	}
 	r.Finish()
 }
